@@ -114,9 +114,12 @@ def saoStore (e : Env) (s : State) (m : StoreMsg) : TxM State := do
   if p.operation < 1 ∨ p.operation > 2 then throw "invalid operation"
   if p.duration < 3600 then throw "invalid duration"
   if !m.cidOk then throw "invalid cid"
-  if !containsB p.commitId p.dataId then
-    let some md := s.getMeta p.dataId | throw "metadata not found"
+  -- permission is checked for every request on an existing model (the `fix:` of F11)
+  match s.getMeta p.dataId with
+  | some md =>
     if !(md.owner = m.sigDid || md.readwriteDids.contains m.sigDid) then throw "no permission"
+  | none =>
+    if !containsB p.commitId p.dataId then throw "metadata not found"
   let payAddr : Option Addr ← (if p.paymentDid ≠ 0 then do
       if !p.paymentDid.isKey then throw "not kid"
       let some a := s.paymentAddress p.paymentDid | throw "invalid payment did"
@@ -260,10 +263,12 @@ def saoComplete (e : Env) (s : State) (creator msgProvider : Addr) (orderId size
 
 def saoCancel (e : Env) (s : State) (creator msgProvider : Addr) (orderId : Nat) : TxM State := do
   let some order := s.getOrder orderId | throw "order not found"
+  -- only the order's own gateway may be the claimed provider (the `fix:` of F10)
   let isCreator := order.creator = creator ||
-    (match s.getNode msgProvider with
-     | some n => n.txAddresses.contains order.creator
-     | none => false)
+    (msgProvider = order.provider &&
+      (match s.getNode msgProvider with
+       | some n => n.txAddresses.contains order.creator
+       | none => false))
   if !isCreator then throw "only order creator allowed"
   if order.status = OrderCompleted then throw "order already completed"
   if !actsFor s creator msgProvider then throw "invalid provider"
@@ -334,7 +339,9 @@ def renewOne (e : Env) (s : State) (pool : Pool) (creator msgProvider : Addr) (s
   if order.status ≠ OrderCompleted then return (s, pool, false)
   if toI64 order.createdAt + toI64 order.duration < s.h then return (s, pool, false)
   let amount ← orderPrice order.size order.replica duration
-  let newO : Order := { order with id := 0, creator := creator, provider := msgProvider, duration := duration, amount := amount,
+  -- the renewal order lists only the shards it renews (the `fix:` of F12)
+  let renewed := (shards.filter (fun sh => sh.status = ShardCompleted)).map (·.id)
+  let newO : Order := { order with id := 0, creator := creator, provider := msgProvider, duration := duration, amount := amount, shards := renewed,
                                    operation := 3, createdAt := toU64 s.h, timeout := toU64 timeout, unitPrice := unitPriceDec,
                                    paymentDid := 0 }
   let (s, newO, err) := renewOrder e s newO
